@@ -102,14 +102,17 @@ def impl(case):
                 ch = np.array(case['ch'], dtype=np.int64) if case.get('chkind') == 'array' else list(case['ch'])
                 out = T.extract_waveforms(traces, spikes, ch, n_samples_waveforms=n)
                 return dict(vals=np.asarray(out).astype(np.int64).tolist(), shape=list(out.shape),
-                            dtype=str(out.dtype))
+                            dtype=str(out.dtype),
+                            args_changed=bool(list(ch) != list(case['ch']) or spikes.tolist() != list(case['spikes'])))
             chans = np.array(case['chans'], dtype=np.int64).reshape((len(spikes), case['nloc']))
             path = d / 'w.npy'
             T.export_waveforms(path, traces, spikes, chans if case.get('chkind') == 'array' else chans.tolist(),
                                n_samples_waveforms=n, sample2unit=case['factor'])
             arr = np.load(path)
             res = dict(shape=list(arr.shape), dtype=str(arr.dtype), vals=arr.tolist(),
-                       ivs=[[int(a), int(b)] for a, b in traces.iter_chunks()])
+                       ivs=[[int(a), int(b)] for a, b in traces.iter_chunks()],
+                       args_changed=bool(chans.ravel().tolist() != np.array(case['chans']).ravel().tolist() or
+                                         spikes.tolist() != list(case['spikes'])))
             if op == 'lookup':
                 st = Bunch(spike_ids=np.array(case['ids'], dtype=np.int64), spike_channels=chans.astype(np.int32),
                            waveforms=arr)
@@ -226,6 +229,8 @@ def judge(case, impl_res, ans):
             return 'CORR: exported dtype %s' % ok['dtype']
     if np.array(ok['vals'], dtype=np.float64).tolist() != np.array(exp, dtype=np.float64).tolist():
         return 'SPEC: %s route differs from the zero-padded raw window' % op
+    if ok.get('args_changed'):
+        return 'SPEC: %s modified the spike / channel arrays passed by the caller' % op
     if op == 'extract' and ok['dtype'] != case['dtype']:
         return 'CORR: extract_waveforms dtype %s' % ok['dtype']
     return None
@@ -377,6 +382,8 @@ def gen(tier, rng):
             c['bias'] = 16777000     # near 2**24: a float32 product would round
         if c['op'] == 'lookup':
             c['ids'] = sorted(rng.sample(range(200), ns))
+            if rng.random() < .4:
+                rng.shuffle(c['ids'])      # a store whose rows are not in increasing spike-id order
             qn = rng.randrange(1, ns + 1)
             c['query'] = [rng.pick(c['ids']) for _ in range(qn)]
             c['chq'] = rng.sample(range(nch + 2), rng.randrange(1, nch + 2))
